@@ -93,6 +93,98 @@ def judge(rows, awards, o, cnt):
     return v
 
 
+def judge_multi(rows, awards, o, cnt):
+    """Several deposit rows in one export (different symbols on one date, one symbol on several dates). Each row has
+    its own quantity, so its BUY line is identified by (ticker, amount)."""
+    v = []
+    if "panic" in o:
+        return [{"clause": "converter-panic", "signature": "converter-panic", "detail": str(o["panic"])[:200]}]
+    table = sm.award_table(awards)
+    deps = [r for r in rows if r["Action"] == "Stock Plan Activity"]
+    want, missing = [], []
+    for dep in deps:
+        D = sm.row_date(dep["Date"])
+        sym = dep["Symbol"].strip()
+        sel = sm.select_award(table, sym, D)
+        if sel is None:
+            missing.append((sym, D))
+        else:
+            want.append((sym, D, sel, sm.amount(dep["Quantity"])))
+    cnt["multi_deposit_exports"] += 1
+    if len({sm.row_date(d_["Date"]) for d_ in deps}) < len(deps) and len({d_["Symbol"].upper() for d_ in deps}) > 1:
+        cnt["multi_deposit_two_symbols_one_date"] += 1
+    if missing:
+        cnt["no_qualifying_entry"] += 1
+        if "ok" in o:
+            v.append({"clause": "cost-invented-without-qualifying-entry", "signature": "cost-invented-without-qualifying-entry",
+                      "detail": f"deposits {[(s_, str(d_)) for s_, d_ in missing]} have no awards entry on the date or within 7 "
+                                f"days before it, yet conversion succeeded"})
+        else:
+            e = o["err"]
+            if e["kind"] != "MissingFairMarketValue":
+                v.append({"clause": "wrong-error-kind", "signature": "wrong-error-kind:" + e["kind"], "detail": e["message"][:200]})
+            elif not any(s_.upper() in e["message"].upper() and d_.isoformat() in e["message"] for s_, d_ in missing):
+                v.append({"clause": "error-does-not-name-symbol-and-date", "signature": "error-does-not-name-symbol-and-date",
+                          "detail": f"{e['message'][:200]} (unpriced deposits: {[(s_, str(d_)) for s_, d_ in missing]})"})
+            else:
+                cnt["failures_naming_symbol_and_date"] += 1
+        return v
+    if "ok" not in o:
+        v.append({"clause": "qualifying-entry-not-used", "signature": "qualifying-entry-not-used",
+                  "detail": f"every deposit has a qualifying entry but conversion failed: {o.get('err', {}).get('message', '')[:160]}"})
+        return v
+    buys = [t for t in o["ok"].get("reparse", {}).get("ok", []) if t["kind"] == "BUY"]
+    if len(buys) != len(deps):
+        v.append({"clause": "rsu-buy-count", "signature": "rsu-buy-count", "detail": f"{len(buys)} BUY lines for {len(deps)} deposit rows"})
+        return v
+    for sym, D, (vest, fmvs), qty in want:
+        b = [t for t in buys if t["ticker"] == sym.upper() and fr(t["amount"]) == qty]
+        if len(b) != 1:
+            v.append({"clause": "rsu-buy-count", "signature": "rsu-buy-count",
+                      "detail": f"deposit {D} {sym} x{qty}: {len(b)} matching BUY lines"})
+            continue
+        b = b[0]
+        gap = (D - vest).days
+        cnt[f"selected_gap_{gap}"] += 1
+        if pdate(b["date"]) != vest:
+            side = "after-deposit" if pdate(b["date"]) > D else ("older-than-7-days" if (D - pdate(b["date"])).days > 7 else "not-nearest")
+            v.append({"clause": "wrong-vest-date", "signature": "wrong-vest-date:" + side,
+                      "detail": f"deposit {D} {sym}: BUY dated {b['date']} but the qualifying entry is {vest} ({gap} days back)"})
+        elif fr(b["price"][0]) not in fmvs or b["price"][1] != "USD":
+            v.append({"clause": "wrong-vest-price", "signature": "wrong-vest-price",
+                      "detail": f"deposit {D} {sym}: BUY priced {b['price']} but the {sym} entry of {vest} gives {[str(x) for x in fmvs]}"})
+        else:
+            cnt["rsu_buys_correct"] += 1
+    return v
+
+
+def gen_multi(rng):
+    syms = rng.sample(["XYZZ", "ACMS", "BAR", "Q1"], rng.randint(2, 3))
+    D = dt.date(rng.randint(2017, 2025), rng.randint(1, 12), rng.randint(1, 28))
+    rows, ents = [], []
+    qty = 10
+    used = set()
+    for sym in syms:
+        for _k in range(rng.randint(1, 2)):
+            dd = D + dt.timedelta(days=rng.choice([0, 0, 0, 1, 3, 9]))
+            if (sym, dd) in used:
+                continue
+            used.add((sym, dd))
+            qty += 1
+            rows.append(deposit_row(rng.choice([sym, sym.lower()]) if rng.random() < 0.2 else sym, dd, qty=str(qty)))
+            if rng.random() < 0.88:      # otherwise this deposit has no qualifying entry
+                g = rng.choice([0, 0, 1, 2, 7])
+                ed = dd - dt.timedelta(days=g)
+                val = "$%d.%02d" % (rng.randint(5, 900), rng.randint(0, 99))
+                if rng.random() < 0.5:
+                    ents.append(entry(sym, ed + dt.timedelta(days=rng.choice([0, 2])), "vest", val, vest_date=ed))
+                else:
+                    ents.append(entry(sym, ed, "fallback", val, action=rng.choice(["Deposit", "Lapse"])))
+    rng.shuffle(rows)
+    rng.shuffle(ents)
+    return rows, {"Transactions": ents}, "multi_deposit"
+
+
 def run_cases(cases):
     cnt = Counter()
     viols = []
@@ -105,9 +197,9 @@ def run_cases(cases):
         cnt["cases"] += 1
         cnt["class_" + label] += 1
         hashes.add(sha([rows, aw])[:16])
-        vs = judge(rows, aw, o, cnt)
+        vs = (judge_multi if label == "multi_deposit" else judge)(rows, aw, o, cnt)
         for x in vs:
-            x["case"] = {"op": "convert", "rows": rows, "awards": aw}
+            x["case"] = {"op": "convert", "rows": rows, "awards": aw, "label": label}
             viols.append(x)
         if not vs and len(samples) < 2 and label != "grid":
             samples.append({"deposit": rows[0]["Date"], "awards": aw,
@@ -144,6 +236,9 @@ def run_random(desc):
     rng = rng_for(PROP, desc["seed"], "random", desc["shard"])
     cases = []
     for _ in range(desc["n"]):
+        if rng.random() < 0.2:
+            cases.append(gen_multi(rng))
+            continue
         D = dt.date(rng.randint(2016, 2025), rng.randint(1, 12), rng.randint(1, 28))
         if rng.random() < 0.3:
             D = rng.choice([dt.date(2024, 1, 3), dt.date(2023, 3, 2), dt.date(2024, 3, 4), dt.date(2025, 1, 1), dt.date(2022, 12, 31)])
@@ -208,7 +303,7 @@ def run_shard(desc):
 def replay(case):
     o = probe().one({"op": "convert", "transactions_json": sm.export_json(case["rows"]),
                      "awards_json": json.dumps(case["awards"]) if case.get("awards") is not None else None, "reparse": True})
-    vs = judge(case["rows"], case.get("awards"), o, Counter())
+    vs = (judge_multi if case.get("label") == "multi_deposit" else judge)(case["rows"], case.get("awards"), o, Counter())
     return vs, o
 
 
@@ -218,7 +313,7 @@ def finalize(total, tier, seed):
         "(mid-month, month start, year start, 1 March of a leap year) = 4,096 awards files"]
 
 
-THRESHOLDS = {"class_grid": 4096, "cases": 6000, "selected_gap_0": 500, "selected_gap_7": 100, "no_qualifying_entry": 500,
+THRESHOLDS = {"multi_deposit_two_symbols_one_date": 300, "class_grid": 4096, "cases": 6000, "selected_gap_0": 500, "selected_gap_7": 100, "no_qualifying_entry": 500,
               "failures_naming_symbol_and_date": 500, "rsu_buys_correct": 2000, "class_no_awards_file": 100}
 RULE = ("complete grid of two-entry awards files around the deposit date (gaps -3..12, both price-field classes, "
         "month/year/leap boundaries) plus random awards files (1-5 entries per symbol, mixed-case symbols, non-vesting "
